@@ -154,6 +154,61 @@ Example c01_ex_leading_dot_lax_provider :
   assert_domain false (fun d => Some d) yes same (Web HTTPS (Some ex)) (Some [46;99;111;109]) = inl [46;99;111;109].
 Proof. vm_compute. reflexivity. Qed.
 
+(** *** the client ceremonies: a rejected pair never reaches the authenticator, an accepted one is checked first
+
+    [Auth/Client.v]'s ceremonies take the verifier's verdict as [domain]. With a rejection, for every request,
+    client-data mode, configuration and answer script, the ceremony performs exactly the capability queries of
+    [get_info] and returns the verifier's error: no lookup, no user interaction, no key, no store write. *)
+From Coq Require Import String.
+From PK Require Auth.Client Auth.ClientRefusal Auth.OrderList Auth.gen.ClientSkeleton Auth.ClientSource.
+Open Scope string_scope.
+Theorem c01_rejected_pair_never_reaches_the_authenticator :
+  forall c e origin (q : Client.reg_request) (q2 : Client.auth_request) cd script,
+  forallb (fun ea : Prog.eff * Prog.answer => ClientRefusal.is_query (fst ea))
+          (fst (Prog.interp (Client.register c (Prog.Err e) origin q cd) script)) = true
+  /\ forallb (fun ea : Prog.eff * Prog.answer => ClientRefusal.is_query (fst ea))
+             (fst (Prog.interp (Client.authenticate c (Prog.Err e) origin q2 cd) script)) = true
+  /\ (forall r, snd (Prog.interp (Client.register c (Prog.Err e) origin q cd) script) = Some r -> r = Prog.Err e)
+  /\ (forall r, snd (Prog.interp (Client.authenticate c (Prog.Err e) origin q2 cd) script) = Some r -> r = Prog.Err e).
+Proof. exact ClientRefusal.refused_domain_never_reaches_the_authenticator. Qed.
+
+(** the source text of the client, as it is now (lists regenerated from passkey-client/src/lib.rs on every run): the
+    RP ID check precedes the client data and the authenticator call in both ceremonies, and the verifier's functions
+    check in the order the RP ID model was written from *)
+Theorem c01_client_source_is_the_modelled_one :
+  ClientSkeleton.SRC_CLIENT_REGISTER = ClientSource.EXP_CLIENT_REGISTER
+  /\ ClientSkeleton.SRC_CLIENT_AUTHENTICATE = ClientSource.EXP_CLIENT_AUTHENTICATE
+  /\ ClientSkeleton.SRC_ASSERT_DOMAIN = ClientSource.EXP_ASSERT_DOMAIN
+  /\ ClientSkeleton.SRC_ASSERT_WEB_RP_ID = ClientSource.EXP_ASSERT_WEB_RP_ID
+  /\ ClientSkeleton.SRC_ASSERT_VALID_RP_ID = ClientSource.EXP_ASSERT_VALID_RP_ID
+  /\ ClientSkeleton.SRC_IS_REGISTRABLE = ClientSource.EXP_IS_REGISTRABLE
+  /\ ClientSkeleton.SRC_IS_VALID_RP_ID = ClientSource.EXP_IS_VALID_RP_ID
+  /\ ClientSkeleton.SRC_ASSERT_ANDROID_RP_ID = ClientSource.EXP_ASSERT_ANDROID_RP_ID.
+Proof.
+  exact (conj ClientSource.src_client_register_order (conj ClientSource.src_client_authenticate_order
+        (conj ClientSource.src_assert_domain_order (conj ClientSource.src_assert_web_rp_id_order
+        (conj ClientSource.src_assert_valid_rp_id_order (conj ClientSource.src_is_registrable_order
+        (conj ClientSource.src_is_valid_rp_id_order ClientSource.src_assert_android_rp_id_order))))))).
+Qed.
+Theorem c01_rp_id_check_precedes_the_authenticator :
+  OrderList.before "AssertDomain" "ClientDataJson" ClientSkeleton.SRC_CLIENT_REGISTER = true
+  /\ OrderList.before "AssertDomain" "MakeCredential" ClientSkeleton.SRC_CLIENT_REGISTER = true
+  /\ OrderList.before "AssertDomain" "ClientDataJson" ClientSkeleton.SRC_CLIENT_AUTHENTICATE = true
+  /\ OrderList.before "AssertDomain" "GetAssertion" ClientSkeleton.SRC_CLIENT_AUTHENTICATE = true.
+Proof. vm_compute. repeat split. Qed.
+Theorem c01_verifier_source_order :
+  OrderList.before "OriginDomain" "SuffixAtLabel" ClientSkeleton.SRC_ASSERT_WEB_RP_ID = true
+  /\ OrderList.before "SuffixAtLabel" "AssertValid" ClientSkeleton.SRC_ASSERT_WEB_RP_ID = true
+  /\ OrderList.before "Err OriginRpMissmatch" "Err InvalidRpId" ClientSkeleton.SRC_ASSERT_WEB_RP_ID = true
+  /\ OrderList.before "AssertValid" "Scheme" ClientSkeleton.SRC_ASSERT_WEB_RP_ID = true
+  /\ OrderList.before "Str https" "Err UnprotectedOrigin" ClientSkeleton.SRC_ASSERT_WEB_RP_ID = true
+  /\ OrderList.before "Str localhost" "AllowsLocalhost" ClientSkeleton.SRC_ASSERT_VALID_RP_ID = true
+  /\ OrderList.before "AllowsLocalhost" "IsRegistrable" ClientSkeleton.SRC_ASSERT_VALID_RP_ID = true
+  /\ OrderList.before "DecodeHost" "ToAscii" ClientSkeleton.SRC_IS_REGISTRABLE = true
+  /\ OrderList.before "ToAscii" "Etld1" ClientSkeleton.SRC_IS_REGISTRABLE = true
+  /\ OrderList.before "SuffixAtLabel" "IsRegistrable" ClientSkeleton.SRC_ASSERT_ANDROID_RP_ID = true.
+Proof. exact ClientSource.rp_id_verifier_source_order_facts. Qed.
+
 Print Assumptions c01_assert_domain_sound.
 Print Assumptions c01_assert_domain_sound_label_boundary.
 Print Assumptions c01_default_provider_rejects_empty_labels.
@@ -165,3 +220,7 @@ Print Assumptions c01_assert_domain_complete.
 Print Assumptions c01_assert_domain_complete_localhost.
 Print Assumptions c01_boundary_is_label_suffix.
 Print Assumptions c01_oracle_on_model.
+Print Assumptions c01_rejected_pair_never_reaches_the_authenticator.
+Print Assumptions c01_client_source_is_the_modelled_one.
+Print Assumptions c01_rp_id_check_precedes_the_authenticator.
+Print Assumptions c01_verifier_source_order.
